@@ -184,16 +184,178 @@ def units(ctx):
         }
         err = err2;
     }""")
-    return [u]
+    return [u, complex_unit()]
+
+
+CX_SPEC = r'''
+pub open spec fn cco(s: Seq<C>, k: int) -> (real, real) { if 0 <= k < s.len() { s[k]@ } else { czero() } }
+// both parts strictly below / at most the zero tolerance
+pub open spec fn negl(x: (real, real), t: real) -> bool { rabs(x.0) < t && rabs(x.1) < t }
+pub open spec fn negl_le(x: (real, real), t: real) -> bool { rabs(x.0) <= t && rabs(x.1) <= t }
+impl Polynomial {
+    pub open spec fn wf(&self) -> bool { self.coefficients@.len() >= 1 }
+    pub open spec fn cc(&self, k: int) -> (real, real) { cco(self.coefficients@, k) }
+    pub open spec fn lead(&self) -> (real, real) { self.coefficients@[self.coefficients@.len() - 1]@ }
+    // the leading coefficient survives Polynomial::purge_leading
+    pub open spec fn lead_kept(&self) -> bool { !negl_le(self.lead(), self.tolerance@) }
+}
+pub open spec fn maxlen(a: int, b: int) -> int { if a >= b { a } else { b } }
+// ---- callees at the complex instantiation: CONTRACTS ONLY (bodies verified at N = real in C13 / C11) ----
+impl Polynomial {
+    #[verifier::external_body]
+    pub fn new() -> (r: Polynomial) ensures r.coefficients@.len() == 1 && r.cc(0) == czero() { unimplemented!() }
+    #[verifier::external_body]
+    pub fn with_tolerance(tolerance: R) -> (r: Result<Polynomial, String>)
+        ensures tolerance@ > 0real ==> r is Ok, r is Ok ==> r->Ok_0.coefficients@.len() == 1 && r->Ok_0.cc(0) == czero() && r->Ok_0.tolerance == tolerance
+    { unimplemented!() }
+    // FromIterator for Polynomial at I = Vec<C> (rule R20)
+    #[verifier::external_body]
+    pub fn vx_from_vec(v: Vec<C>) -> (r: Polynomial) ensures r.coefficients@ == v@ { unimplemented!() }
+}
+impl AddAssignSpecImpl<&Polynomial> for Polynomial {
+    open spec fn obeys_add_assign_spec() -> bool { false }
+    open spec fn add_assign_req(&self, rhs: &Polynomial) -> bool { self.wf() && rhs.wf() }
+    open spec fn add_assign_spec(&self, rhs: &Polynomial) -> &Self { arbitrary() }
+}
+impl core::ops::AddAssign<&Polynomial> for Polynomial {
+    #[verifier::external_body]
+    fn add_assign(&mut self, rhs: &Polynomial)
+        ensures final(self).tolerance == old(self).tolerance, final(self).coefficients@.len() == maxlen(old(self).coefficients@.len() as int, rhs.coefficients@.len() as int),
+            forall|k: int| #![trigger final(self).cc(k)] final(self).cc(k) == cadd(old(self).cc(k), rhs.cc(k))
+    { unimplemented!() }
+}
+impl SubAssignSpecImpl<&Polynomial> for Polynomial {
+    open spec fn obeys_sub_assign_spec() -> bool { false }
+    open spec fn sub_assign_req(&self, rhs: &Polynomial) -> bool { self.wf() && rhs.wf() }
+    open spec fn sub_assign_spec(&self, rhs: &Polynomial) -> &Self { arbitrary() }
+}
+impl core::ops::SubAssign<&Polynomial> for Polynomial {
+    #[verifier::external_body]
+    fn sub_assign(&mut self, rhs: &Polynomial)
+        ensures final(self).tolerance == old(self).tolerance, final(self).coefficients@.len() == maxlen(old(self).coefficients@.len() as int, rhs.coefficients@.len() as int),
+            forall|k: int| #![trigger final(self).cc(k)] final(self).cc(k) == csub(old(self).cc(k), rhs.cc(k))
+    { unimplemented!() }
+}
+'''
+
+
+def complex_cfg():
+    from vx.extract import Config
+    c = Config(type_subst=[("Polynomial<N>", "Polynomial"), ("Polynomial::<N>", "Polynomial"), ("<N as ComplexField>::RealField", "R"), ("N::RealField", "R"), ("N", "C"), ("f64", "R")])
+    return c
+
+
+def complex_unit(prop="C12"):
+    """divide() and purge_leading() at the complex instantiation N = Complex: what `Polynomial::roots` relies on when it deflates"""
+    u = Unit(prop, "divide_complex", preludes=("real", "stdx", "cx", "cxdiv"), cfg=complex_cfg())
+    u.crate_attrs = []
+    u.rlimit = 60
+    u.timeout = 240
+    u.item(PFILE, "struct", "Polynomial")
+    u.spec(CX_SPEC)
+    im = u.impl(PFILE, "Polynomial<N>", header="impl Polynomial", keep_assoc=False)
+    g = im.fn("purge_leading")
+    g.req("old(self).wf()")
+    g.ens("final(self).wf()", "final(self).tolerance == old(self).tolerance", "final(self).coefficients@.len() <= old(self).coefficients@.len()",
+          "forall|k: int| 0 <= k < final(self).coefficients@.len() ==> final(self).coefficients@[k] == old(self).coefficients@[k]",
+          # what is dropped is negligible in BOTH parts; what is kept on top is not (or only the constant is left)
+          "forall|k: int| final(self).coefficients@.len() <= k < old(self).coefficients@.len() ==> negl_le(#[trigger] old(self).coefficients@[k]@, old(self).tolerance@)",
+          "final(self).coefficients@.len() == 1 || final(self).lead_kept()")
+    g.loop(1, invariant=["self.wf()", "self.tolerance == old(self).tolerance", "self.coefficients@.len() <= old(self).coefficients@.len()",
+                         "forall|k: int| 0 <= k < self.coefficients@.len() ==> self.coefficients@[k] == old(self).coefficients@[k]",
+                         "forall|k: int| self.coefficients@.len() <= k < old(self).coefficients@.len() ==> negl_le(#[trigger] old(self).coefficients@[k]@, old(self).tolerance@)"],
+           decreases="self.coefficients@.len()")
+    f = im.fn("divide")
+    f.opt(subst=[("Polynomial::from_iter(self.coefficients.iter().copied())",
+                  "Polynomial::vx_from_vec(self.coefficients.iter().map(|c_: &C| -> (y_: C) ensures y_ == *c_ { *c_ }).collect())", "R5-copied+R20-collect-into-polynomial")])
+    f.opt(collect_polynomial=(1, 2))
+    f.closure(1, params="c: &C", ret="vx_y: C", ensures=["vx_y@ == cmul((*c)@, idivisor@)"])
+    f.closure(2, params="c: &C", ret="vx_y: C", ensures=["vx_y@ == cmul((*c)@, temp.coefficients@[temp.coefficients@.len() - 1]@)", "vx_y@ == cmul(temp.coefficients@[temp.coefficients@.len() - 1]@, (*c)@)"])
+    f.req("self.wf()", "divisor.wf()", "self.tolerance@ > 0real",
+          "divisor.coefficients@.len() >= 2 ==> divisor.lead() != czero()",
+          "self.coefficients@.len() + divisor.coefficients@.len() < usize::MAX / 2")
+    f.ens(# division by (a constant within the tolerance of) zero is an Err -- both parts are looked at
+          "divisor.coefficients@.len() == 1 && negl(divisor.cc(0), self.tolerance@) ==> res is Err",
+          # division by a constant scales the coefficients by its reciprocal
+          "divisor.coefficients@.len() == 1 && !negl(divisor.cc(0), self.tolerance@) ==> res is Ok && res->Ok_0.1.coefficients@.len() == 1 && res->Ok_0.1.cc(0) == czero() "
+          "&& res->Ok_0.0.coefficients@.len() <= self.coefficients@.len() "
+          "&& (forall|k: int| 0 <= k < res->Ok_0.0.coefficients@.len() ==> #[trigger] res->Ok_0.0.coefficients@[k]@ == cmul(self.coefficients@[k]@, cdiv((1real, 0real), divisor.cc(0))))",
+          # Euclidean loop: terminates, the remainder is shorter than the divisor and properly trimmed (a leading coefficient is dropped only if BOTH parts are negligible)
+          "divisor.coefficients@.len() >= 2 ==> res is Ok && res->Ok_0.1.wf() && res->Ok_0.0.wf() && res->Ok_0.1.coefficients@.len() < divisor.coefficients@.len() "
+          "&& (res->Ok_0.1.coefficients@.len() == 1 || !negl(res->Ok_0.1.lead(), self.tolerance@))",
+          # deflation by a monic linear factor (what Polynomial::roots does): the quotient is one shorter and keeps leading coefficient and tolerance
+          "divisor.coefficients@.len() == 2 && divisor.lead() == (1real, 0real) && self.lead_kept() && self.coefficients@.len() >= 2 ==> "
+          "res->Ok_0.0.coefficients@.len() == self.coefficients@.len() - 1 && res->Ok_0.0.lead() == self.lead() && res->Ok_0.0.tolerance == self.tolerance")
+    H4 = "(divisor.coefficients@.len() == 2 && divisor.lead() == (1real, 0real) && self.lead_kept() && self.coefficients@.len() >= 2)"
+    f.hint("before: let mut temp = Polynomial::new()", "let ghost mut first = true;")
+    f.loop(1, invariant=[
+        "quotient.wf() && remainder.wf() && divisor.coefficients@.len() >= 2 && divisor.lead() != czero() && self.tolerance@ > 0real",
+        "remainder.tolerance == self.tolerance && quotient.tolerance == self.tolerance",
+        "remainder.coefficients@.len() <= self.coefficients@.len() && quotient.coefficients@.len() <= self.coefficients@.len()",
+        "self.coefficients@.len() + divisor.coefficients@.len() < usize::MAX / 2",
+        "remainder.coefficients@.len() == 1 || !negl(remainder.lead(), self.tolerance@)",
+        f"{H4} && first ==> quotient.coefficients@.len() == 1 && quotient.cc(0) == czero() && remainder.coefficients@.len() == self.coefficients@.len() && remainder.lead() == self.lead()",
+        f"{H4} && !first ==> quotient.coefficients@.len() == self.coefficients@.len() - 1 && quotient.lead() == self.lead() && remainder.coefficients@.len() < self.coefficients@.len()",
+    ], decreases="remainder.coefficients@.len()")
+    f.loop(2, iter="it2", invariant=[
+        "temp.coefficients@.len() == divisor.coefficients@.len() + it2.index@",
+        "temp.coefficients@[temp.coefficients@.len() - 1]@ == cmul(cq, divisor.lead())",
+    ])
+    f.loop(3, invariant=[
+        "remainder.wf() && remainder.tolerance == self.tolerance && remainder.coefficients@.len() <= rl0",
+        "remainder.coefficients@.len() < rl0 || remainder.coefficients@[rl0 - 1]@ == czero()",
+    ], decreases="remainder.coefficients@.len()")
+    f.hint("before: remainder.purge_leading()", "let ghost rp = remainder; proof { assert(rp.coefficients@ =~= self.coefficients@); }")
+    f.hint("after: remainder.purge_leading()", """proof {
+        if self.lead_kept() {
+            // nothing is dropped: the top coefficient is not negligible
+            if remainder.coefficients@.len() < rp.coefficients@.len() { assert(negl_le(rp.coefficients@[rp.coefficients@.len() - 1]@, rp.tolerance@)); assert(false); }
+            assert(remainder.lead() == self.lead());
+        }
+    }""")
+    f.hint("loop 1 begin", "let ghost q0 = quotient; let ghost r0 = remainder; let ghost rl0 = remainder.coefficients@.len() as int;")
+    f.hint("after: temp.coefficients[order] =", """let ghost cq = temp.coefficients@[order as int]@;
+    proof {
+        axiom_cdiv(r0.lead(), divisor.lead());
+        assert(cmul(cq, divisor.lead()) == r0.lead());
+        if divisor.lead() == (1real, 0real) { assert(cq == r0.lead()); }
+    }""")
+    f.hint("before: let padding =", """proof {
+        assert(quotient.cc(order as int) == cadd(q0.cc(order as int), temp.cc(order as int)));
+        let top = self.coefficients@.len() - 2;
+        if (divisor.coefficients@.len() == 2 && divisor.lead() == (1real, 0real) && self.lead_kept() && self.coefficients@.len() >= 2) {
+            if first { assert(order == top); assert(q0.cc(top) == czero()); assert(quotient.cc(top) == self.lead()); }
+            else { assert(quotient.cc(top) == cadd(q0.cc(top), temp.cc(top))); assert(temp.cc(top) == czero()); }
+            assert(quotient.coefficients@.len() == top + 1);
+        }
+    }""")
+    f.hint("before loop 3", """proof {
+        assert(remainder.coefficients@.len() == rl0);
+        assert(temp.coefficients@.len() == rl0);
+        assert(temp.cc(rl0 - 1) == r0.lead());
+        assert(remainder.cc(rl0 - 1) == csub(r0.cc(rl0 - 1), temp.cc(rl0 - 1)));
+        assert(remainder.coefficients@[rl0 - 1]@ == czero());
+    }""")
+    # a coefficient of the running remainder is dropped only if BOTH its parts are within the zero tolerance (the error term E of the
+    # Euclidean identity -- proved in full at the real instantiation -- consists of exactly these dropped coefficients)
+    f.hint("loop 3 begin", "proof { assert(negl(remainder.lead(), self.tolerance@)); }")
+    f.hint("loop 1 end", "proof { first = false; }")
+    return u
 
 
 DECIDED = [
     "divide: divisor = constant within the zero tolerance -> Err; constant divisor -> coefficients scaled by 1/d0 (after dropping leading coefficients within the tolerance), remainder 0",
     "divisor of degree >= 1 with non-zero leading coefficient: the loop terminates (decreases: remainder length), returns Ok((q, r)) with deg r < deg d and dividend_k = (q*d)_k + r_k + E_k for every k, where (q*d)_k is the convolution and |E_k| <= tolerance (E collects exactly the coefficients dropped as 'zero', at most one per power)",
     "the += / -= operators used by the loop are re-verified in the unit",
+    "divide() and purge_leading() at the COMPLEX instantiation (unit divide_complex; Polynomial::roots deflates in complex arithmetic also for real input): a constant divisor with BOTH parts within the tolerance -> Err; "
+    "division by a constant = multiplication by its reciprocal; the Euclidean loop terminates, the remainder is shorter than the divisor, and a coefficient is dropped (purge_leading, trim loop) only if BOTH its parts "
+    "are within the tolerance; deflation by a monic linear factor returns a quotient one shorter with the same leading coefficient and tolerance (the contract C14 relies on)",
 ]
 NOT_DECIDED = ["the rounding part of the backward-error bound (exact reals: E only contains the tolerance-dropped coefficients)",
-               "remainder exactly zero for an exact multiple (follows from uniqueness of Euclidean division, not stated)", "complex coefficients"]
-ASSUMPTIONS = ["tolerance > 0 (with tolerance 0 an exactly cancelled leading coefficient is never popped: the loop would not terminate)",
+               "remainder exactly zero for an exact multiple (follows from uniqueness of Euclidean division, not stated)",
+               "complex coefficients: the full Euclidean identity (unit divide_complex decides the guards, the trimming, the constant-divisor case, termination and the deflation shape only)"]
+ASSUMPTIONS = ["divide_complex: prelude/cx.rs + cxdiv.rs (complex numbers as exact pairs, division with the obligation divisor != 0); new / with_tolerance / FromIterator / += / -= on polynomials are CONTRACTS ONLY there "
+               "(their bodies are verified at the real instantiation in C13 / C11)",
+               "tolerance > 0 (with tolerance 0 an exactly cancelled leading coefficient is never popped: the loop would not terminate)",
                "leading coefficient of the divisor non-zero (the property's 'non-negligible leading coefficient')",
                "rule R20: `.collect()` into a Polynomial / Polynomial::from_iter go through the FromIterator impl extracted at I = Vec<R>"]
